@@ -407,3 +407,21 @@ package dawn
 //@ (assert (not (= m1 m2)))                            ; a second creator allocated its own module
 //@ (assert (and (has1 k) (= (val1 k) m2)))            ; ... and registered it under the same label later
 //@ >>>
+
+// ---------------------------------------------------------------- C08: what a fingerprint contains
+// envPickler hands the encoder exactly the components of each host kind (so nothing a function
+// references is left out at this level); everything else is declined.
+//@ func dawn.envPickler
+//@   deterministic
+//@   ensures function: (istype(x, "*starlark.Function") && result.3 == nil) ==> (result.0 == "dawn" && result.1 == "Function" && len(result.2) == 3 && result.2[0] == fdefaults(x.(*starlark.Function)) && result.2[1] == ffreevars(x.(*starlark.Function)) && result.2[2] == ifaceas("*starlark.FunctionCode", fcode(x.(*starlark.Function))))
+//@   ensures code: (istype(x, "*starlark.FunctionCode") && result.3 == nil) ==> (result.0 == "dawn" && result.1 == "FunctionCode" && len(result.2) == 3 && result.2[0] == cmodule(x.(*starlark.FunctionCode)) && result.2[1] == cglobals(x.(*starlark.FunctionCode)) && istype(result.2[2], "starlark.Bytes") && string(result.2[2].(starlark.Bytes)) == cbytecode(x.(*starlark.FunctionCode)))
+//@   ensures builtin-identified: (istype(x, "*starlark.Builtin") && result.3 == nil) ==> (result.0 == "dawn" && result.1 == "Builtin" && len(result.2) == 1 && istype(result.2[0], "starlark.String") && result.2[0].(starlark.String) == bname(x.(*starlark.Builtin)))
+//@   modifies heap
+
+//@ func dawn.functionEnv
+//@   deterministic
+//@   modifies heap, olen, obytes, ipos, dkeys, dvals
+
+//@ func dawn.makeDictFromAssociationList
+//@   deterministic
+//@   modifies heap, dkeys, dvals
